@@ -51,6 +51,10 @@ type Ctx struct {
 	// Yield, if set, is called before every API call and inside every sink /
 	// source call of the engines (the lock-step scheduler of C14 parks there).
 	Yield func()
+	// Shared, if set, is an object all tasks of a concurrency case have in
+	// common (C14: one lzma.Properties value that every caller re-tunes for
+	// its own writer right before creating it).
+	Shared any
 }
 
 func newCtx(verbose bool, tier string) *Ctx {
